@@ -1010,6 +1010,21 @@ def cssl2_cmd(t, h):
     return hx(SslRecord(SslErrorMessage(SslErrorType(code))).compose())
 
 
+def pssh_cmd(h):
+    from cryptoparser.ssh.record import SshRecordInit
+    obj, n = SshRecordInit.parse_immutable(bytes.fromhex('' if h == '-' else h))
+    return '%s n=%d' % (hx(obj.packet.compose()), n)
+
+
+def cssh_cmd(h):
+    from cryptoparser.ssh.record import SshRecordInit
+    from cryptoparser.ssh.subprotocol import SshUnimplementedMessage
+    payload = bytes.fromhex(h)
+    if len(payload) != 5 or payload[0] != 3:
+        raise TypeError('not constructible')
+    return hx(SshRecordInit(SshUnimplementedMessage(int.from_bytes(payload[1:], 'big'))).compose())
+
+
 def hline_cmd(strict, h):
     from cryptoparser.httpx.header import HttpHeaderFieldUnparsed, HttpHeaderFieldServer
     data = bytes.fromhex('' if h == '-' else h)
@@ -1038,7 +1053,7 @@ def banner_dec(h):
 
 COMMANDS = {
     'bannerenc': banner_enc, 'bannerdec': banner_dec,
-    'nvl': nvl_cmd, 'fvm': fvm_cmd, 'hline': hline_cmd, 'pssl2': pssl2_cmd, 'cssl2': cssl2_cmd,
+    'nvl': nvl_cmd, 'fvm': fvm_cmd, 'hline': hline_cmd, 'pssl2': pssl2_cmd, 'cssl2': cssl2_cmd, 'pssh': pssh_cmd, 'cssh': cssh_cmd,
     'tpktenc': tpkt_enc, 'cotpenc': cotp_enc, 'pcotp': p_cotp, 'rdpnegenc': rdp_neg_enc, 'mysqlpktenc': mysql_pkt_enc,
     'mysqlssl41': mysql_ssl41, 'mysqlhs': mysql_hs, 'mysqlssl320': mysql_ssl320, 'ovpnctl': ovpn_ctl, 'ovpntcp': ovpn_tcp, 'pgssl': pg_ssl,
     'sshpad': ssh_pad, 'mpintspec': mpint_spec, 'kexenc': kex_enc, 'kexdec': kex_dec,
